@@ -11,6 +11,10 @@ MONITORS = ['C01']
 
 def run(ctx):
     machine_prop.run(ctx, FAMILIES, MONITORS)
+    # infinite dates: the clock can reach inf (`time >= inf`, `time + inf`); the kernel model keeps keys strictly
+    # above the clock, so what happens AFTER the clock reached inf is outside the model: this family is checked by
+    # the arithmetic oracle on the implementation only
+    machine_prop.run(ctx, [('timers', 60, 1500, {'allow_inf': True, 'till_p': 0.0})], MONITORS, model=False)
 
 
 def search(ctx):
